@@ -15,6 +15,12 @@ func (*inArray) Exit(node *Node) {
 		if n.Operator == "in" || n.Operator == "not in" {
 			if array, ok := n.Right.(*ArrayNode); ok {
 				if len(array.Nodes) > 0 {
+					if hasDynamicOperand(n.Left) {
+						// The static type of an expression over interface{} operands
+						// (1 + x, cond ? 1 : x) is only a guess, and a lookup map
+						// needs a key of exactly its key type.
+						return
+					}
 					t := n.Left.Type()
 					if t == nil || t.Kind() != reflect.Int {
 						// This optimization can be only performed if left side is int type,
@@ -67,4 +73,21 @@ func (*inArray) Exit(node *Node) {
 			}
 		}
 	}
+}
+
+type dynamicOperand struct{ found bool }
+
+func (d *dynamicOperand) Enter(node *Node) {
+	if t := (*node).Type(); t == nil || t.Kind() == reflect.Interface {
+		d.found = true
+	}
+}
+func (*dynamicOperand) Exit(*Node) {}
+
+// hasDynamicOperand reports whether some node of the expression has no
+// concrete static type.
+func hasDynamicOperand(node Node) bool {
+	d := &dynamicOperand{}
+	Walk(&node, d)
+	return d.found
 }
